@@ -61,6 +61,8 @@ def main():
     R.count("library_functions_inspected", len(touched))
     R.count("generated_functions_inspected", len({d for k, d in Body.TOUCHED if k == "flatty_corpus"}))
     R.functions_inspected = touched
+    R.functions_shape = sorted({d for k, d in Body.TOUCHED_SHAPE if k in lib})
+    R.count("library_functions_under_shape_rules", len(R.functions_shape))
     if a.replay:
         rec = json.load(open(a.replay))
         hit = [o for o in R.obligations if o["key"] == rec["key"]]
